@@ -287,7 +287,7 @@ func ext۰reflect۰Value۰Len(fr *frame, args []value) value {
 		return len(v)
 	case *hashmap:
 		return v.len()
-	case map[value]value:
+	case sstring:
 		return len(v)
 	default:
 		panic(fmt.Sprintf("reflect.(Value).Len(%v)", v))
@@ -299,13 +299,8 @@ func ext۰reflect۰Value۰MapIndex(fr *frame, args []value) value {
 	tValue := rV2T(args[0]).t.Underlying().(*types.Map).Key()
 	k := rV2V(args[1])
 	switch m := rV2V(args[0]).(type) {
-	case map[value]value:
-		if v, ok := m[k]; ok {
-			return makeReflectValue(tValue, v)
-		}
-
 	case *hashmap:
-		if v := m.lookup(k.(hashable)); v != nil {
+		if v := m.lookup(k); v != nil {
 			return makeReflectValue(tValue, v)
 		}
 
@@ -320,16 +315,9 @@ func ext۰reflect۰Value۰MapKeys(fr *frame, args []value) value {
 	var keys []value
 	tKey := rV2T(args[0]).t.Underlying().(*types.Map).Key()
 	switch v := rV2V(args[0]).(type) {
-	case map[value]value:
-		for k := range v {
-			keys = append(keys, makeReflectValue(tKey, k))
-		}
-
 	case *hashmap:
-		for _, e := range v.entries() {
-			for ; e != nil; e = e.next {
-				keys = append(keys, makeReflectValue(tKey, e.key))
-			}
+		for _, e := range v.live() {
+			keys = append(keys, makeReflectValue(tKey, e.key))
 		}
 
 	default:
@@ -358,9 +346,7 @@ func ext۰reflect۰Value۰Pointer(fr *frame, args []value) value {
 	case []value:
 		return reflect.ValueOf(v).Pointer()
 	case *hashmap:
-		return reflect.ValueOf(v.entries()).Pointer()
-	case map[value]value:
-		return reflect.ValueOf(v).Pointer()
+		return uintptr(unsafe.Pointer(v))
 	case *ssa.Function:
 		return uintptr(unsafe.Pointer(v))
 	case *closure:
@@ -464,8 +450,6 @@ func ext۰reflect۰Value۰IsNil(fr *frame, args []value) value {
 	case *value:
 		return x == nil
 	case chan value:
-		return x == nil
-	case map[value]value:
 		return x == nil
 	case *hashmap:
 		return x == nil
